@@ -1079,6 +1079,10 @@ def sheet_streams(ctx):
                     ctx.count(f"{prefix}_objid_type_{it[1]}@{'block' if it[5] else 'sheet'}")
                     ctx.count(f"{prefix}_objid_route_{rc}")
                     nt = nt or rc != "sheet"
+                if it[4] and it[1] != "split_by_group":
+                    # has_group conditions on edges leaving a row that is not a group split
+                    ctx.count(f"{prefix}_has_group_edge_from_{it[1]}@{'block' if it[5] else 'sheet'}")
+                    nt = True
         ctx.count(f"{prefix}_blocks_%d" % len(wb["blocks"]))
         ctx.count(f"{prefix}_flows_%d" % len(ex["flows"]))
         if wb.get("two_readers"):
@@ -1086,7 +1090,7 @@ def sheet_streams(ctx):
         return nt
 
     # ---- (1) one ContentIndexParser per workbook: histories of parse_all / render
-    wbs = W.directed_wbs() if ctx.scale < 10 else []      # small and cheap: also on the scale-3 pass of a drifted tree
+    wbs = W.directed_wbs() + W.directed_test_wbs() if ctx.scale < 10 else []      # small and cheap: also on the scale-3 pass of a drifted tree
     ctx.stats["wb_directed"] = len(wbs)
     for i in range(n_wb):
         wbs.append(W.gen_wb(rng, malformed=(rng.random() < 0.3), big=(thorough and i % 10 == 0)))
